@@ -170,6 +170,15 @@ Theorem sections_eq_series : forall n k A D lam len_km zeta m dl rho hf ht (q : 
 Proof. exact section_is_series_piece. Qed.
 Print Assumptions sections_eq_series.
 
+(* node renumbering: under any renaming rho that sends the internal nodes of the n-section pipe to the new junctions
+   js (and keeps its two end junctions), FROM_NODE / TO_NODE of its sections are those of the n one-section pipes
+   from_junction -> js_1 -> ... -> js_(n-1) -> to_junction, wherever these sit in the pits (start, start') *)
+Theorem sections_eq_series_chain : forall (start start' : nat) (p : @pipe R) (rho : nat -> nat) js len zeta,
+  rho (p_from p) = p_from p -> rho (p_to p) = p_to p -> map rho (seq start (int_nodes p)) = js ->
+  map (fun ab => (rho (fst ab), rho (snd ab))) (chain_one start p) = chain start' (series_pieces p js len zeta).
+Proof. intros. apply chain_sections_eq_series; assumption. Qed.
+Print Assumptions sections_eq_series_chain.
+
 (* ------------------------------------------------------------------ 4. load_merge / source_is_negative_sink *)
 
 Theorem load_merge : forall (A : Type) (zero one : A) (add mul sub : A -> A -> A) (opp : A -> A),
